@@ -250,27 +250,58 @@ def check_counts(P, ctx, fr):
     ok = set(st) >= {'nitems', 'nslots', 'data'} and util.const_int(st['nitems'][1]) == 0 and util.const_int(st['nslots'][1]) == 0 and ir.is_null(st['data'][1]) and \
         all(g.must_pass(g.exit, [st[k][0]['id']]) for k in ('nitems', 'nslots', 'data'))
     ctx.check(ok, rule, 'Table_Clear', site(fn), 'clearing resets count, slot count and data pointer together on every path')
-    # set grows after inserting, on every path
-    fn = P.fn(P.slot('Table', 'Get', 'set'))
-    g = P.cfg(fn)
-    ins = [n for (n, c) in g.nodes_calling('Table_Set_Move')]
-    gr = [n for (n, c) in g.nodes_calling('Table_Resize_More')]
-    ok = len(ins) == 1 and len(gr) == 1 and g.must_pass(g.exit, [gr[0]['id']]) and g.must_pass(gr[0]['id'], [ins[0]['id']])
-    ctx.check(ok, 'C02.grow-before-full', 'Table_Set', site(fn), 'every set is followed by the growth check, so a free slot always remains for the next insertion')
-    for f, op in (('Table_Resize_More', '<'), ('Table_Resize_Less', '>')):
-        fn = P.fn(f)
-        g = P.cfg(fn)
-        N = util.Norm(P, fn, expand_locals=True)
-        conds = [n for n in g.live() if n['kind'] == 'cond']
-        rh = [(n, c) for (n, c) in g.nodes_calling('Table_Rehash')]
-        ok = len(conds) == 1 and len(rh) == 1
-        if ok:
-            c = N.canon(conds[0]['expr'])
-            ideal = ir.canon(('call', ('func', 'Table_Ideal_Size'), (('arrow', ('param', 't', 0), 'nitems'),)))
-            ns = ('arrow', ('param', 0), 'nslots')
-            want = ('bin', '<', ns, ideal) if op == '<' else ('bin', '<', ideal, ns)
-            ok = c == want and g.must_pass(rh[0][0]['id'], through_edges=[(conds[0]['id'], True)]) and N.canon(rh[0][1][2][1]) == ideal
-        ctx.check(ok, 'C02.grow-before-full', f, site(fn), 'rehashes to the ideal size for the current count exactly when that is %s than the slot count' % ('larger' if op == '<' else 'smaller'))
+    # set grows after inserting; the two resize helpers rehash to the ideal size exactly when needed (evaluated with cint)
+    from . import cint
+
+    def resize_eval(fname, args, want_insert, grows):
+        fn = P.fn(fname)
+        bad, unsup = None, None
+        for nslots in (0, 53, 101):
+            for ideal in (0, 53, 101, 211):
+                for nitems in (0, 7):
+                    events = []
+
+                    def call(nm, e, it, events=events, ideal=ideal, nitems=nitems):
+                        if nm == 'Table_Set_Move':
+                            events.append(('insert',))
+                            return 0
+                        if nm == 'Table_Ideal_Size':
+                            if it.ev(e[2][0]) != nitems:
+                                events.append(('ideal size of something that is not the count',))
+                            return ideal
+                        if nm == 'Table_Rehash':
+                            events.append(('rehash', it.ev(e[2][1])))
+                            return 0
+                        raise cint.NoEval('call %s' % nm)
+                    atoms = {('elem', 'self', 0, 'nslots'): nslots, ('elem', 'self', 0, 'nitems'): nitems}
+                    r = cint.CInt(P, fn, atoms=atoms, call=call, recurse=True).run([('ep', 'self', 0)] + args)
+                    if r[0] != 'ret':
+                        unsup = '%s' % (r[1],)
+                        continue
+                    # necessary for the map: growth happens when the ideal size exceeds the slots; any rehash goes to the ideal size
+                    # (a rehash that is not needed is harmless, a missed shrink only wastes memory)
+                    need = grows and ideal > nslots
+                    want = ([('insert',)] if want_insert else []) + ([('rehash', ideal)] if need else [])
+                    okev = events == want or (not need and events == want + [('rehash', ideal)])
+                    if not okev and bad is None:
+                        bad = '%d slots, ideal size %d for the count: %s' % (nslots, ideal, ', '.join('%s%s' % (e_[0], e_[1:] if len(e_) > 1 else '') for e_ in events) or 'nothing happens')
+        return fn, bad, unsup
+    fn, bad, unsup = resize_eval(P.slot('Table', 'Get', 'set'), [8000, 8001], True, True)
+    if unsup and not bad:
+        ctx.undecided('C02.grow-before-full', 'Table_Set', site(fn), 'set leaves the evaluated fragment: ' + unsup)
+    else:
+        ctx.check(bad is None, 'C02.grow-before-full', 'Table_Set', site(fn), 'every set is followed by the growth check (rehash to the ideal size when that exceeds the slot count), so a free slot always '
+                  'remains for the next insertion', [bad] if bad else None)
+    for f, grows in (('Table_Resize_More', True), ('Table_Resize_Less', False)):
+        if P.fn(f, required=False) is None and grows:
+            ctx.proved('C02.grow-before-full', f, site(fn), 'no separate helper: the growth test is part of set (evaluated there)')
+            continue
+        fn2, bad, unsup = resize_eval(f, [], False, grows)
+        if unsup and not bad:
+            ctx.undecided('C02.grow-before-full', f, site(fn2), 'leaves the evaluated fragment: ' + unsup)
+        else:
+            ctx.check(bad is None, 'C02.grow-before-full', f, site(fn2), ('rehashes to the ideal size for the current count whenever that is larger than the slot count' if grows else 'a shrink rehashes to the ideal size for the current count, never to anything else'),
+                      [bad] if bad else None)
     ctx.floor(rule, 4)
     ctx.floor('C02.grow-before-full', 3)
 
@@ -430,18 +461,21 @@ def check_layout(P, ctx, H=None):
     vd = [d for s_ in ir.stmts(fn['body']) if s_['k'] == 'decl' for d in s_['decls'] if d['name'] == 'vurr']
     ok = len(vd) == 1 and poly.from_expr(N.canon(vd[0]['init'])) - poly.Poly.atom('curr') == k + Hs
     ctx.check(ok, rule, 'Table_Hash', site(fn), 'the value of an entry is found ksize + header bytes behind its key')
-    for f, sign in (('Table_Iter_Next', 1), ('Table_Iter_Prev', -1)):
-        fn = P.fn(f)
-        g = P.cfg(fn)
-        N = util.Norm(P, fn)
-        steps = [n for n in g.live() if n['kind'] == 'stmt' and n['expr'] is not None and N.canon(n['expr'])[0] == 'assign' and N.canon(n['expr'])[2] == ('param', 1)]
-        ok = len(steps) == 2
-        for n in steps:
-            p = poly.from_expr(N.canon(n['expr'])[3]) - poly.Poly.atom('arg1')
-            ok = ok and p == (want['step'] if sign == 1 else -want['step'])
-        hd = [n for n in g.live() if n.get('decl') and n['decl']['init'] is not None and ir.nocast(n['decl']['init'])[0] == 'un']
-        ok = ok and len(hd) == 1 and poly.from_expr(N.canon(hd[0]['decl']['init'])[2]) - poly.Poly.atom('arg1') == -(c8 + Hs)
-        ctx.check(ok, rule, f, site(fn), 'the cursor moves by one record and reads the hash word header + 8 bytes before the key')
+    # the cursors, evaluated over slot memory laid out by the accessors: a wrong stride or hash-word offset reads an address that holds
+    # no hash word, or yields the wrong sequence
+    from . import absmodel
+    try:
+        wbad, wunsup, wn = absmodel.eval_cursor_walk(P, 'Table', which=('iter_init', 'iter_next', 'iter_last', 'iter_prev'))
+    except absmodel.Unsupported as x:
+        wbad, wunsup, wn = {}, str(x), 0
+    ctx.stats['paths'] += wn
+    for f, m in (('Table_Iter_Next', 'iter_next'), ('Table_Iter_Prev', 'iter_prev')):
+        fn = P.fn(P.slot('Table', 'Iter', m))
+        if wunsup and not wbad.get(m):
+            ctx.undecided(rule, f, site(fn), 'the cursor function leaves the evaluated fragment: ' + wunsup)
+        else:
+            ctx.check(wbad[m] is None, rule, f, site(fn), 'the cursor moves by one record and reads the hash word header + 8 bytes before the key '
+                      '(evaluated on every occupancy of up to 4 slots)', [wbad[m]] if wbad[m] else None)
     ctx.floor(rule, 12)
 
 
